@@ -584,17 +584,25 @@ func c34(ctx *hlib.Ctx) {
 		c34emit(ctx, in, srv, "seed-64k-stream")
 	}
 
-	// ---- thorough: every script of length 4 over 5 round-trip behaviours, small scope
+	// ---- thorough: small scope, exhaustively: every script over 5 round-trip behaviours, of
+	// length 3 without fallback (at most 3 attempts) and of length 4 with https->http fallback
 	if ctx.Tier == "thorough" {
 		alpha := []c34rt{{-1, -1}, {1, -1}, {-1, 503}, {-1, 200}, {-1, 404}}
-		bos := [][]bool{{}, {T}, {F}, {T, T}, {T, F}}
+		bos := [][]bool{{}, {T}, {T, T}, {F}, {T, F}}
 		for kind := 0; kind < 3; kind++ {
-			for _, bo := range bos {
-				for sch := 0; sch < 3; sch++ {
-					for a := 0; a < 625; a++ {
+			for sch := 0; sch < 3; sch++ {
+				nb, ns := 5, 125
+				if sch == 2 {
+					nb, ns = 3, 625
+				}
+				for _, bo := range bos[:nb] {
+					for a := 0; a < ns; a++ {
+						script := []c34rt{alpha[a%5], alpha[a/5%5], alpha[a/25%5]}
+						if sch == 2 {
+							script = append(script, alpha[a/125])
+						}
 						in := &c34in{method: 3, url: 2, hdrs: [][2]int{{1, 1}}, unit: 1, blocks: 2, bodySeed: 3, kind: kind, sub: a % 6,
-							https: sch > 0, fallback: sch == 2, bo: bo,
-							script: []c34rt{alpha[a%5], alpha[a/5%5], alpha[a/25%5], alpha[a/125]}}
+							https: sch > 0, fallback: sch == 2, bo: bo, script: script}
 						c34emit(ctx, in, srv, "exhaustive")
 					}
 				}
